@@ -1,10 +1,10 @@
 CONSTANTS
   NF = 3  D = 2  CapSmall = 1  CapLarge = 1
-  Kinds <- KAll
+  Kinds <- KAnswer
   Sizes <- SAll
   Opts <- OPlain
   FlushOnWait = TRUE  FlushBeforeDirect = TRUE  ResetSlot = TRUE
-  Stall = FALSE  TimeoutSticky = TRUE
-SPECIFICATION Spec
+  Stall = TRUE  TimeoutSticky = TRUE
+SPECIFICATION ScriptSpec
 INVARIANTS TypeOK WholeInOrderOnePerQuery StreamEndsAtFailedWrite ReplyOptIsOwn SlotIsZeroBetweenRequests NothingHeldWhileBlocked ClassFits TokenConservation ClosedIsClean
 CHECK_DEADLOCK FALSE
